@@ -261,6 +261,63 @@ example : (runF Cfg.repaired FCfg.repaired chainF.toDag (initF chainF.toDag)
       (fun f => (f.core.phase, f.core.calls 1, f.core.st 1, f.mid, f.late))
     = some (.exited, 1, .done, [], []) := by decide
 
+/-! ## Re-runs: the composite is run again after a run that ended or failed
+
+`Exec.restart resetReceived d s fails' onExec'` is the state in which the next run starts: outputs as
+the previous run left them, statuses cleared, and the all-of triggers' `received` sets either dropped
+(`true`: repaired `Composite._on_run`) or kept (`false`: pinned). -/
+
+theorem wf_rerun {d : Dag} (wf : WF d) (s : S) (f e : Nat → Bool) : WF (rerunDag d s f e) :=
+  ⟨wf.downSpec, wf.downNodup, wf.noSelf, wf.startNodup, wf.startRoots, wf.rootsStart⟩
+
+/-- with the reset, a re-run IS a fresh run of the same wiring whose children start from the outputs
+of the previous run — so every theorem of this file (and of C06) applies to it, with `d.out0` = those
+outputs; by induction, to any number of consecutive runs -/
+theorem C01_rerun_is_fresh (d : Dag) (s : S) (f e : Nat → Bool) :
+    restart true d s f e = init (rerunDag d s f e) := rfl
+
+/-- the property for run number two, three, …: whatever state `s` an earlier run ended in, a re-run
+without faults executes every child exactly once, in dependency order, and recomputes every output
+from the outputs of THIS run (`headArgs … t.out`), not from stale ones -/
+theorem C01_rerun {cfg : Cfg} {d : Dag} (wf : WF d) (rank : Nat → Nat)
+    (hrank : ∀ i j, j ∈ d.deps i → rank j < rank i) (s : S) (e : Nat → Bool) (acts : List Act) (t : S)
+    (hr : runActs cfg (rerunDag d s (fun _ => false) e) (restart true d s (fun _ => false) e) acts = some t) :
+    (∀ i j, t.st i ≠ .idle → j ∈ d.deps i → t.st j = .done) ∧
+    (t.phase = .exited → ∀ i, d.member i →
+      t.calls i = 1 ∧ t.st i = .done ∧ t.out i = .app i (headArgs d t.out i)) := by
+  have hreach : Reach cfg (rerunDag d s (fun _ => false) e) t := ⟨acts, hr⟩
+  have wf' := wf_rerun wf s (fun _ => false) e
+  refine ⟨fun i j hi hj => C01_order wf' hreach i j hi hj, fun hex i hm => ?_⟩
+  have hnf : NoFaults (rerunDag d s (fun _ => false) e) := fun _ => rfl
+  have h1 := C01_once wf' rank hrank hnf hreach hex i hm
+  exact ⟨h1.1, h1.2, C01_value wf' rank hrank hnf hreach hex i hm⟩
+
+/-- PINNED (`received` kept): machine-checked counterexample. `0 → 2 ← 1`, node 1 on an executor.
+Run one: node 0 raises, node 1 completes, trigger of 2 holds {1}. Failure cleared, cause removed; run
+two: node 0 finishes, its signal completes the stale set and node 2 executes while node 1 is still
+out — before its upstream has finished, on the output node 1 produced in run one. -/
+def veeF : FinDag :=
+  { n := 3, slots := [[], [], [[0], [1]]], down := [[2], [2], []], starters := [0, 1],
+    onExec := [false, true, false], fails := [true, false, false], rank := [0, 0, 1] }
+
+def veeRun1 : List Act := [.start, .start, .complete 1, .deliver, .exit]
+def veeRun2 : List Act := [.start, .start, .deliver]
+
+theorem C01_rerun_pinned_witness :
+    ((runActs Cfg.repaired veeF.toDag (init veeF.toDag) veeRun1).bind fun s1 =>
+      (runActs Cfg.repaired (rerunDag veeF.toDag s1 (fun _ => false) veeF.toDag.onExec)
+        (restart false veeF.toDag s1 (fun _ => false) veeF.toDag.onExec) veeRun2).map
+        fun t => (s1.received 2, t.st 2, t.st 1, t.calls 2)) = some ([1], .done, .out, 1) := by
+  decide
+
+/-- the same history with the reset: node 2 is still idle at that point -/
+example :
+    ((runActs Cfg.repaired veeF.toDag (init veeF.toDag) veeRun1).bind fun s1 =>
+      (runActs Cfg.repaired (rerunDag veeF.toDag s1 (fun _ => false) veeF.toDag.onExec)
+        (restart true veeF.toDag s1 (fun _ => false) veeF.toDag.onExec) veeRun2).map
+        fun t => (t.st 2, t.st 1, t.calls 2)) = some (.idle, .out, 0) := by
+  decide
+
 end PwVerif.C01
 
 #print axioms PwVerif.C01.C01_order
@@ -283,3 +340,6 @@ end PwVerif.C01
 #print axioms PwVerif.C01.C01_fine_atomic
 #print axioms PwVerif.C01.C01_fine_pinned_witness
 #print axioms PwVerif.C01.C01_fine_pinned_not_once
+#print axioms PwVerif.C01.C01_rerun_is_fresh
+#print axioms PwVerif.C01.C01_rerun
+#print axioms PwVerif.C01.C01_rerun_pinned_witness
